@@ -18,7 +18,7 @@ SPEC_TIMEOUT = 900
 CONFIRM_ALONE = ('jobs_held_up_by_recycling', 'pool_hung_while_recycling', 'pool_size_not_restored',
                  'job_failed_after_idle_worker_died')
 FLOORS = {
-    'quick': {'sim:size_checks': 5000, 'sim:supervise_with_exits': 1000, 'sim:exit:recycle': 150,
+    'quick': {'real:grow_shrink_scenarios': 2, 'sim:size_checks': 5000, 'sim:supervise_with_exits': 1000, 'sim:exit:recycle': 150,
               'sim:grow': 60, 'sim:shrink': 30, 'sim:counter_credit_checked': 2000},
     'thorough': {'sim:size_checks': 50000, 'sim:exit:recycle': 1500, 'sim:grow': 600},
 }
